@@ -2952,9 +2952,13 @@ def optimize_graph(ir_model: ir.Model) -> ir.Model:
         if graph_obj is None:
             continue
         fgr = cast(ir.Graph, graph_obj)
-        for opt_pass in _OPTIMIZER_PASSES:
-            _run_function_optimizer_pass(opt_pass, fgr)
-        _ensure_function_outputs_have_producers(fgr)
+        try:
+            for opt_pass in _OPTIMIZER_PASSES:
+                _run_function_optimizer_pass(opt_pass, fgr)
+        finally:
+            # also when a pass raises: under the default policy the caller keeps
+            # the graph as the earlier passes left it
+            _ensure_function_outputs_have_producers(fgr)
 
     return ir_model
 
